@@ -5,7 +5,8 @@
     where the data is on disk. *)
 From TB Require Import Base Decimal BencodeModel TorrentModel TorrentProofs PathModel FsModel SolverModel FinderModel RunModel
                        SolverProofs RunProofs FsProofs SearchProofs FinderProofs SystemModel SystemProofs GlueProofs EstablishProofs CompleteProofs
-                       RerunProofs AvailProofs TerminationProofs Generated GeneratedObligations.
+                       RerunProofs AvailProofs TerminationProofs ExecModel ExecProofs ComposeProofs Generated GeneratedObligations.
+From Coq Require Import Permutation.
 Local Open Scope N_scope.
 
 Lemma map_nth_error' {A B} (g : A -> B) l i x : nth_error l i = Some x -> nth_error (map g l) i = Some (g x).
@@ -50,3 +51,99 @@ Proof.
   pose proof (work_pool_good export ts ix es Hts Hnd Hpop content Hc H ws _ Hw Hcr Hp) as Hg.
   exact (rerun_recovers H content es Hf pc Hwf Hall Hcr' Hhash Hpadz Hne Hone wit f0 _ s1 _ s2 i o Ha Hg Hv Hr1 Hg (map_nth_error (solve_prog H) i ws Hn) Hr2 Hn2).
 Qed.
+
+(** ** The executor and the evaluations together, end to end (C02 + C05 as stated)
+
+    The fault-free composition (ComposeProofs) for a run of loadable torrents: the pool holds the
+    evaluation programs of the work list, the executor's queues [q0] hold their numbers.  Complete
+    runs exist; every run terminates; and EVERY complete run - any thread count [n], any
+    interleaving of executor actions and evaluation steps, any rebalancing - ends with each present
+    piece evaluated to [Success] and in place in the export tree. *)
+Lemma good_noprobe content pc pg : good content pc pg -> noprobe pg.
+Proof. induction 1; constructor; auto. Qed.
+
+Lemma pgood_noprobe content es pool : Forall (pgood content es) pool -> Forall noprobe pool.
+Proof. intros Hg. apply Forall_forall. intros pg Hin. rewrite Forall_forall in Hg. destruct (Hg pg Hin) as (pc & _ & _ & Hgood). exact (good_noprobe content pc pg Hgood). Qed.
+
+Section WholeComposed.
+Variable n : nat.
+Variable balanced : nat -> (nat -> list nat) -> (nat -> list nat) -> Prop.
+Hypothesis Hperm : forall a f f', balanced a f f' -> Permutation (flat nat a f') (flat nat a f).
+Hypothesis Hout : forall a f f' i, balanced a f f' -> (a <= i)%nat -> f' i = f i.
+Hypothesis Hmono : forall a f f' i j, balanced a f f' -> (i <= j)%nat -> (j < a)%nat -> (length (f' j) <= length (f' i))%nat.
+Hypothesis Htotal : forall a f, exists f', balanced a f f'.
+Variable q0 : nat -> list nat.
+Hypothesis Hq0 : forall i, (n <= i)%nat -> q0 i = [].
+
+Theorem whole_composed_run_recovers H content export ts ix es ws f0 dev under i pc :
+  run_setup H content export ts ix es ws f0 (map (solve_prog H) ws) ->
+  (forall w, In w (flat nat n q0) -> (w < length ws)%nat) -> In i (flat nat n q0) ->
+  nth_error ws i = Some pc -> H (piece_bytes content pc) = w_hash pc -> Forall (pad_zero content) (w_segs pc) ->
+  ix_of_fs f0 dev under (metadata_table export ts 0) ix ->
+  Forall (seg_present_stable content f0 under (metadata_table export ts 0) es) (w_segs pc) ->
+  let c0 := cinit n q0 f0 (map (solve_prog H) ws) in
+  (exists c, creach n balanced fstep c0 c /\ forall t, (t < n)%nat -> ExecModel.pc (ce c) t = PDone) /\
+  (forall c, creach n balanced fstep c0 c -> Acc (fun c'' c' => cany n balanced fstep c' c'') c) /\
+  (forall c, creach n balanced fstep c0 c -> (forall t, (t < n)%nat -> ExecModel.pc (ce c) t = PDone) ->
+     Permutation (solved (ce c)) (flat nat n q0) /\
+     nth_error (s_pool (cs c)) i = Some (Ret Success) /\
+     forall sg, In sg (w_segs pc) -> e_pad (ps_entry sg) = false -> holds_seg content (s_fs (cs c)) sg).
+Proof.
+  intros Hsetup Hidx Hi Hn Hhash Hpadz Hix Hps c0.
+  pose proof Hsetup as (Hts & Hnd & Hpop & Hw & Hc & Hcr & Hf & Ha & Hp).
+  pose proof (work_of_side export ts ix es Hts Hnd Hpop content Hc ws Hw) as Hside. rewrite Forall_forall in Hside.
+  pose proof (nth_error_In _ _ Hn) as Hin. destruct (Hside pc Hin) as (Hwf & Hall & Hne & Hone).
+  assert (Hcr' : cr H content pc) by (rewrite Forall_forall in Hcr; auto).
+  pose proof (work_pool_good export ts ix es Hts Hnd Hpop content Hc H ws _ Hw Hcr Hp) as Hgood.
+  assert (Hidx' : forall w, In w (flat nat n q0) -> (w < length (map (solve_prog H) ws))%nat) by (intros w Hw'; rewrite map_length; auto).
+  split; [|split].
+  - exact (ff_completes n balanced Hperm Hout Hmono Htotal q0 Hq0 f0 _ Hidx' (pgood_noprobe content es _ Hgood)).
+  - intros c Hr. apply (compose_terminates n balanced Hperm Hout Hmono Htotal fstep q0 Hq0 c).
+    exact (proj_exec n balanced fstep c0 c Hr).
+  - intros c Hr Hdone.
+    destruct (compose_exactly_once n balanced Hperm Hout Hmono Htotal fstep q0 Hq0 f0 _ c Hr Hdone) as [Hperm' Hret].
+    split; [exact Hperm'|]. destruct (Hret i Hi) as [o Ho].
+    pose proof (proj_fsys n balanced c0 c Hr) as Hfr. cbn [c0 cinit cs] in Hfr.
+    destruct (present_means_recovered H content (metadata_table export ts 0) ix es dev under pc {| s_fs := f0; s_pool := map (solve_prog H) ws |} (cs c) i o
+                Hf Hwf Hall Hcr' Hhash Hpadz Hne Hone Hpop Hix Hps Ha Hgood (map_nth_error (solve_prog H) i ws Hn) Hfr Ho) as [-> Hplace].
+    split; [exact Ho|exact Hplace].
+Qed.
+
+(** The same with every OTHER evaluation free to fail, to be answered arbitrarily, to be cut in the
+    middle of a write (C13: an I/O failure on one piece is confined to that piece) - under every schedule. *)
+Theorem whole_composed_run_recovers_despite_faults H content export ts ix es ws f0 dev under i pc :
+  run_setup H content export ts ix es ws f0 (map (solve_prog H) ws) ->
+  (forall w, In w (flat nat n q0) -> (w < length ws)%nat) -> In i (flat nat n q0) ->
+  nth_error ws i = Some pc -> H (piece_bytes content pc) = w_hash pc -> Forall (pad_zero content) (w_segs pc) ->
+  ix_of_fs f0 dev under (metadata_table export ts 0) ix ->
+  Forall (seg_present_stable content f0 under (metadata_table export ts 0) es) (w_segs pc) ->
+  let c0 := cinit n q0 f0 (map (solve_prog H) ws) in
+  (exists c, creach n balanced (pstep_but i) c0 c /\ forall t, (t < n)%nat -> ExecModel.pc (ce c) t = PDone) /\
+  (forall c, creach n balanced (pstep_but i) c0 c -> Acc (fun c'' c' => cany n balanced (pstep_but i) c' c'') c) /\
+  (forall c, creach n balanced (pstep_but i) c0 c -> (forall t, (t < n)%nat -> ExecModel.pc (ce c) t = PDone) ->
+     Permutation (solved (ce c)) (flat nat n q0) /\
+     nth_error (s_pool (cs c)) i = Some (Ret Success) /\
+     forall sg, In sg (w_segs pc) -> e_pad (ps_entry sg) = false -> holds_seg content (s_fs (cs c)) sg).
+Proof.
+  intros Hsetup Hidx Hi Hn Hhash Hpadz Hix Hps c0.
+  pose proof Hsetup as (Hts & Hnd & Hpop & Hw & Hc & Hcr & Hf & Ha & Hp).
+  pose proof (work_of_side export ts ix es Hts Hnd Hpop content Hc ws Hw) as Hside. rewrite Forall_forall in Hside.
+  pose proof (nth_error_In _ _ Hn) as Hin. destruct (Hside pc Hin) as (Hwf & Hall & Hne & Hone).
+  assert (Hcr' : cr H content pc) by (rewrite Forall_forall in Hcr; auto).
+  pose proof (work_pool_good export ts ix es Hts Hnd Hpop content Hc H ws _ Hw Hcr Hp) as Hgood.
+  assert (Hidx' : forall w, In w (flat nat n q0) -> (w < length (map (solve_prog H) ws))%nat) by (intros w Hw'; rewrite map_length; auto).
+  split; [|split].
+  - exact (but_completes n balanced Hperm Hout Hmono Htotal q0 Hq0 i f0 _ Hidx' (pgood_noprobe content es _ Hgood)).
+  - intros c Hr. apply (compose_terminates n balanced Hperm Hout Hmono Htotal (pstep_but i) q0 Hq0 c).
+    exact (proj_exec n balanced (pstep_but i) c0 c Hr).
+  - intros c Hr Hdone.
+    destruct (compose_exactly_once n balanced Hperm Hout Hmono Htotal (pstep_but i) q0 Hq0 f0 _ c Hr Hdone) as [Hperm' Hret].
+    split; [exact Hperm'|]. destruct (Hret i Hi) as [o Ho].
+    pose proof (proj_msys n balanced i c0 c Hr) as Hfr. cbn [c0 cinit cs] in Hfr.
+    destruct (present_means_recovered_despite_faults H content (metadata_table export ts 0) ix es dev under pc
+                {| s_fs := f0; s_pool := map (solve_prog H) ws |} (cs c) i o
+                Hf Hwf Hall Hcr' Hhash Hpadz Hne Hone Hpop Hix Hps Ha Hgood (map_nth_error (solve_prog H) i ws Hn) Hfr Ho) as [-> Hplace].
+    split; [exact Ho|exact Hplace].
+Qed.
+
+End WholeComposed.
